@@ -79,7 +79,10 @@ fn kb_decode_object_keys() {
     }
 }
 
-fn decode_must_not_run<'a>(_d: &mut Decoder<'a>) -> Result<Value<'a>, Error> {
+fn decode_must_not_run<'a>(_d: &mut Decoder<'a>) -> Result<Value<'a>, Error>
+where
+    'a: 'a,
+{
     panic!("the binary decoder was run on input that does not start with a JSONB header byte")
 }
 
